@@ -17,7 +17,7 @@ RULE = (
     "Cases are operator trees over leaf/concatenate/unite/repeat/repeat_range/pad_to_alignment (recursive strategy, <=8 leaves, "
     "counts 0..6 or huge up to 2**64, alignments 1..64) with a drawn list of queries (min, max, fixed_length, %d, is_aligned_at(d), "
     "is_aligned_at_byte, iter, len; d in 1..128 and a few huge), built through drawn API spellings (methods, + | += |= with ints / sets, "
-    "radd/ror; operands of concatenate / unite handed over as list, tuple, generator, iterator, map or dict view); plus rule-based histories over a pool of sets; plus "structured residues": a + H + {0..j}b for a subgroup H of Z_d (d <= 40), lifted by multiples of d, repeated k = q*d + r times with r uniform over Z_d and q up to 2**58, queried at d, its divisors and multiples; plus a complete grid of all residue sets {0} + S, |S| <= 3, modulo d = 6..12, repeated / range-repeated 0 .. 3d-1 times.  Oracles: explicit Python-set model (small) and sumset-power model in "
+    "radd/ror; operands of concatenate / unite handed over as list, tuple, generator, iterator, map or dict view); plus rule-based histories over a pool of sets; plus structured residues: a + H + {0..j}b for a subgroup H of Z_d (d <= 40), lifted by multiples of d, repeated k = q*d + r times with r uniform over Z_d and q up to 2**58, queried at d, its divisors and multiples; plus a complete grid of all residue sets {0} + S, |S| <= 3, modulo d = 6..12, repeated / range-repeated 0 .. 3d-1 times.  Oracles: explicit Python-set model (small) and sumset-power model in "
     "Z_d (any k).  Non-trivial = tree depth >= 2 with >= 2 distinct operator kinds, or a repetition count >= 2**32; distinct by SHA-1 "
     "of the case."
 )
